@@ -300,6 +300,25 @@ def build_cases(ctx, rng, lits, kws):
                     parts.append(pieces[k]); parts.append(MARK[m] + body)
                 parts.append(pieces[len(seq)])
                 add('oscat-markers', ''.join(parts), sub=''.join(seq))
+    # every list of the language written with no element at all (the grammar takes some of them, rejects others; the stages
+    # behind the parser then meet a list they index, fold or take the first element of)
+    P = 'PROGRAM p\nVAR\n x : INT;\nEND_VAR\n{}END_PROGRAM\n'
+    V = 'PROGRAM p\nVAR\n{}END_VAR\nEND_PROGRAM\n'
+    EMPTY = [V.format(' m : () := RUN;\n'), V.format(' m : ();\n'), V.format(' m : (A) := A;\n n : (A) := B;\n'), V.format(''),
+             'TYPE\n s : STRUCT\n  m : () := RUN;\n END_STRUCT;\nEND_TYPE\n', 'TYPE\n e : ();\nEND_TYPE\n', 'TYPE\n e : () := A;\nEND_TYPE\n',
+             'TYPE\n s : STRUCT\n END_STRUCT;\nEND_TYPE\n', 'TYPE\nEND_TYPE\n', 'TYPE\n e : (A);\n s : STRUCT\n  m : e := ();\n END_STRUCT;\nEND_TYPE\n',
+             V.format(' a : ARRAY[] OF INT;\n'), V.format(' a : ARRAY[1..2] OF INT := [];\n'), V.format(" s : STRING[] := '';\n"),
+             V.format(' r : INT(..);\n'), V.format(' r : INT();\n'), V.format(' a, : INT;\n'), V.format(' : INT;\n'),
+             P.format('CASE x OF\nEND_CASE;\n'), P.format('CASE x OF\n 1:\nEND_CASE;\n'), P.format('CASE x OF\n :\n x := 1;\nEND_CASE;\n'),
+             P.format('x := f();\n'), P.format('x := a[];\n'), P.format('x := ();\n'), P.format('x := ;\n'), P.format('x();\n'),
+             P.format('IF x > 0 THEN\nEND_IF;\n'), P.format('IF x > 0 THEN\nELSIF x > 1 THEN\nELSE\nEND_IF;\n'), P.format('WHILE x > 0 DO\nEND_WHILE;\n'),
+             P.format('REPEAT\nUNTIL x > 0 END_REPEAT;\n'), P.format('FOR x := 1 TO 2 DO\nEND_FOR;\n'), P.format(';\n'), P.format(';;;\n'),
+             'FUNCTION_BLOCK fb\nEND_FUNCTION_BLOCK\nPROGRAM p\nVAR\n i : fb;\nEND_VAR\ni();\nEND_PROGRAM\n', 'FUNCTION f : INT\nEND_FUNCTION\n',
+             'PROGRAM p\nEND_PROGRAM\n', 'CONFIGURATION c\nEND_CONFIGURATION\n', 'CONFIGURATION c\nRESOURCE r ON pc\nEND_RESOURCE\nEND_CONFIGURATION\n',
+             'CONFIGURATION c\nVAR_GLOBAL\nEND_VAR\nRESOURCE r ON pc\nPROGRAM i : p;\nEND_RESOURCE\nEND_CONFIGURATION\nPROGRAM p\nEND_PROGRAM\n',
+             'CONFIGURATION c\nRESOURCE r ON pc\nTASK t();\nPROGRAM i WITH t : p;\nEND_RESOURCE\nEND_CONFIGURATION\nPROGRAM p\nEND_PROGRAM\n',
+             'FUNCTION_BLOCK fb\nINITIAL_STEP s:\nEND_STEP\nEND_FUNCTION_BLOCK\n', 'FUNCTION_BLOCK fb\nINITIAL_STEP s:\nEND_STEP\nTRANSITION FROM () TO ()\n := TRUE;\nEND_TRANSITION\nEND_FUNCTION_BLOCK\n']
+    for k, t in enumerate(EMPTY): add('empty-list', t, sub=str(k))
     for kind in ['if', 'for', 'while', 'repeat', 'case']:
         for d in ([12] if q else range(1, 13)): add('nest:' + kind, nest(d, kind), sub=str(d))
     for kind in ['paren', 'paren-left', 'call', 'subscript', 'unary', 'not', 'bare-paren']:
